@@ -41,9 +41,12 @@ HonestClass(S0, cls) ==
       [] cls = "Timeout"  -> TimeoutActs(S0, FALSE)
       [] cls = "Close"    -> IF 2 * Len(sched) > Depth /\ RandomElement(1..2) = 1 THEN CloseActs(S0, FALSE) ELSE {}
       [] cls = "WriteAck" -> WriteAckActs(S0)
+      [] cls = "Genesis"  -> GenesisActs(S0)
 
-HonestWeights == <<"Block", "Update", "Update", "Update", "Update", "Send", "Send", "Send", "Recv", "Recv", "Recv", "Recv", "Recv",
+HonestWeights0 == <<"Block", "Update", "Update", "Update", "Update", "Send", "Send", "Send", "Recv", "Recv", "Recv", "Recv", "Recv",
                    "Ack", "Ack", "Ack", "Ack", "Timeout", "Timeout", "Timeout", "WriteAck", "WriteAck", "Close", "Freeze">>
+
+HonestWeights == IF GENESIS THEN HonestWeights0 \o <<"Genesis", "Genesis", "Genesis", "Genesis">> ELSE HonestWeights0
 
 AdvClass(S0, cls) ==
     CASE cls = "DupUpdate"  -> UpdateActs(S0, TRUE)
